@@ -870,6 +870,11 @@ package middleware
 //@ func (*untypedParamBinder).tryUnmarshaler
 //@ watch IMP = invoke (reflect.Type).Implements
 //@ watch IF = call (reflect.Value).Interface
+//@ watch VS = call (reflect.Value).Set
+//@ watch UT = invoke (encoding.TextUnmarshaler).UnmarshalText
+//@ ensures [C03:readonly] !rvCanSet(target) ==> !result0 && result1 == nil && calls(VS) == 0 && calls(UT) == 0
+//@ ensures [C03:plain] calls(IMP) == 1 && !ret(IMP,0,0) ==> !result0 && result1 == nil && calls(VS) == 0 && calls(UT) == 0
+//@ ensures [C03:textunmarshaler] calls(IMP) == 1 && ret(IMP,0,0) ==> result0 && (defaultValue != nil && len(data) == 0 ==> result1 == nil && calls(UT) == 0 && calls(VS) == 1) && (!(defaultValue != nil && len(data) == 0) ==> calls(UT) == 1 && (ret(UT,0,0) != nil ==> result1 == ret(UT,0,0) && calls(VS) == 0) && (ret(UT,0,0) == nil ==> result1 == nil && calls(VS) == 1 && arg(VS,0,0) == target))
 //@ requires p != nil && rvValid(target) && textUnmarshalType != nil
 //@ assume after IF calls(IMP) == 1 && ret(IMP,0,0) ==> implements(ret(IF,0,0), "encoding.TextUnmarshaler")
 //@ assigns \opaque
@@ -914,6 +919,10 @@ package middleware
 //@ watch CT = call runtime.ContentType
 //@ watch HB = call runtime.HasBody
 //@ watch CO = invoke (runtime.Consumer).Consume
+//@ watch PMF = call (*net/http.Request).ParseMultipartForm
+//@ watch PFM = call (*net/http.Request).ParseForm
+//@ watch FF = call (*net/http.Request).FormFile
+//@ watch VS = call (reflect.Value).Set
 //@ requires p != nil && p.parameter != nil && request != nil && request.URL != nil && rvValid(target) && textUnmarshalType != nil
 //@ requires rtBase(rvType(target)) == 1 && p.parameter.Default != nil ==> dynkind(p.parameter.Default) == 1
 //@ requires p.parameter.Type == "array" && rvCanSet(target) ==> rvKind(target) == 23
@@ -927,6 +936,9 @@ package middleware
 //@ ensures [C03:formtype] loc() == "formData" ==> calls(CT) == 1 && arg(CT,0,0) == old(request.Header) && (ret(CT,0,2) != nil || (ret(CT,0,0) != "multipart/form-data" && ret(CT,0,0) != "application/x-www-form-urlencoded") ==> result != nil && calls(RV) == 0 && calls(BV) == 0)
 //@ ensures [C03:formsource] loc() == "formData" && calls(RV) == 1 ==> arg(RV,0,2) == target && (before(RV, request.MultipartForm) != nil ==> arg(RV,0,1) == boxas(before(RV, request.MultipartForm.Value), "runtime.Values")) && (before(RV, request.MultipartForm) == nil ==> arg(RV,0,1) == boxas(before(RV, request.PostForm), "runtime.Values"))
 //@ ensures [C03:formbind] loc() == "formData" && calls(RV) == 1 ==> (ret(RV,0,3) != nil ==> result == ret(RV,0,3) && calls(BV) == 0) && (ret(RV,0,3) == nil && ret(RV,0,1) ==> result == nil && calls(BV) == 0) && (ret(RV,0,3) == nil && !ret(RV,0,1) ==> calls(BV) == 1 && arg(BV,0,1) == ret(RV,0,0) && arg(BV,0,2) == ret(RV,0,2) && arg(BV,0,3) == target && result == ret(BV,0,0))
+//@ spec formOK() := loc() == "formData" && ret(CT,0,2) == nil && (ret(CT,0,0) == "multipart/form-data" || ret(CT,0,0) == "application/x-www-form-urlencoded")
+//@ ensures [C03:formparse] formOK() ==> (calls(PMF) == 1 <==> ret(CT,0,0) == "multipart/form-data") && (calls(PMF) == 1 ==> arg(PMF,0,0) == request && arg(PMF,0,1) == 33554432 && (ret(PMF,0,0) != nil ==> result != nil && calls(PFM) == 0 && calls(RV) == 0 && calls(FF) == 0)) && (calls(PMF) == 0 || ret(PMF,0,0) == nil ==> calls(PFM) == 1 && arg(PFM,0,0) == request && (ret(PFM,0,0) != nil ==> result != nil && calls(RV) == 0 && calls(FF) == 0))
+//@ ensures [C03:file] formOK() && calls(PFM) == 1 && ret(PFM,0,0) == nil ==> (calls(FF) == 1 <==> old(p.parameter.Type) == "file") && (calls(FF) == 1 ==> arg(FF,0,0) == request && arg(FF,0,1) == old(p.parameter.Name) && calls(RV) == 0 && (ret(FF,0,2) != nil ==> calls(VS) == 0 && (result != nil <==> old(p.parameter.Required))) && (ret(FF,0,2) == nil ==> result == nil && calls(VS) == 1 && arg(VS,0,0) == target)) && (calls(FF) == 0 ==> calls(RV) == 1)
 //@ ensures [C03:unknownloc] loc() != "query" && loc() != "header" && loc() != "path" && loc() != "formData" && loc() != "body" ==> result != nil && calls(RV) == 0 && calls(BV) == 0 && calls(CO) == 0
 //@ ensures [C03:body] loc() == "body" ==> calls(HB) == 1 && arg(HB,0,0) == request && calls(RV) == 0 && calls(BV) == 0 && (!ret(HB,0,0) ==> result == nil && calls(CO) == 0) && (ret(HB,0,0) ==> calls(CO) == 1 && recv(CO,0) == consumer && (ret(CO,0,0) == nil ==> result == nil))
 
